@@ -486,6 +486,23 @@ func genC10Hist(tier string, rng *Rng) []Case {
 				g.adv(int64(rng.Pick2([]int{1, 5, 100})))
 				g.req("GET", "/c/x")
 				g.req("GET", "/c/x")
+			} else if prof == "fresh" && rng.Chance(45, 100) {
+				// the entry goes stale and the origin answers the refresh with an error (or a redirect) of a status the
+				// cache does store, but marked as not to be cached: it must replace nothing and be shown to nobody else
+				g.adv(g.lastL + 200)
+				g.nonce++
+				st := rng.Pick2([]int{404, 404, 400, 403, 401, 301, 410, 500})
+				eb := fmt.Sprintf("gone body-v%d", g.nonce)
+				eh := []KV{{"Content-Type", "text/plain"}, {"Content-Length", fmt.Sprint(len(eb))},
+					{"Cache-Control", rng.Pick([]string{"no-store", "private", "max-age=0", "no-cache", "s-maxage=0"})}, {"X-Session", fmt.Sprintf("session-%d", g.nonce)}}
+				if st == 301 {
+					eh = append(eh, KV{"Location", "http://elsewhere.test/moved"})
+				}
+				g.script(Behaviour{Status: st, Hdrs: eh, Body: eb})
+				g.req("GET", "/c/x")
+				g.adv(int64(rng.Pick2([]int{1, 5, 30})))
+				g.req("GET", "/c/x")
+				g.req("GET", "/c/x")
 			}
 		}
 		out = append(out, mkCacheCase([]Rule{rule}, g.ops, nil))
